@@ -9,6 +9,61 @@ use serde::{
 
 use super::Call;
 
+enum Flag {
+    Oneway,
+    More,
+    Upgrade,
+}
+
+/// A member name of the call object: one of the flags (the seed of the method type is handed
+/// back), or anything else, already deserialized by the seed of the method type.
+enum Key<K, V> {
+    Flag(Flag, K),
+    Other(V),
+}
+
+struct KeySeed<K>(K);
+
+impl<'de, K> DeserializeSeed<'de> for KeySeed<K>
+where
+    K: DeserializeSeed<'de>,
+{
+    type Value = Key<K, K::Value>;
+
+    fn deserialize<D>(self, deserializer: D) -> Result<Self::Value, D::Error>
+    where
+        D: Deserializer<'de>,
+    {
+        deserializer.deserialize_str(self)
+    }
+}
+
+impl<'de, K> Visitor<'de> for KeySeed<K>
+where
+    K: DeserializeSeed<'de>,
+{
+    type Value = Key<K, K::Value>;
+
+    fn expecting(&self, f: &mut fmt::Formatter<'_>) -> fmt::Result {
+        write!(f, "a member name")
+    }
+
+    fn visit_str<E>(self, name: &str) -> Result<Self::Value, E>
+    where
+        E: de::Error,
+    {
+        match name {
+            "oneway" => Ok(Key::Flag(Flag::Oneway, self.0)),
+            "more" => Ok(Key::Flag(Flag::More, self.0)),
+            "upgrade" => Ok(Key::Flag(Flag::Upgrade, self.0)),
+            other => self
+                .0
+                .deserialize(other.into_deserializer())
+                .map(Key::Other),
+        }
+    }
+}
+
 impl<'de, M> Deserialize<'de> for Call<M>
 where
     M: Deserialize<'de>,
@@ -58,30 +113,24 @@ where
                     where
                         K: DeserializeSeed<'de>,
                     {
-                        while let Some(key) = self.inner.next_key::<&str>()? {
-                            match key {
-                                "oneway" => {
+                        let mut seed = seed;
+                        loop {
+                            // The name is looked at where it is rather than read as a `&'de str`: a
+                            // name written with escape sequences only exists as a transient string.
+                            match self.inner.next_key_seed(KeySeed(seed))? {
+                                None => return Ok(None),
+                                Some(Key::Other(key)) => return Ok(Some(key)),
+                                Some(Key::Flag(flag, unused_seed)) => {
                                     let v = self.inner.next_value()?;
-                                    self.oneway.set(Some(v));
-                                    continue;
-                                }
-                                "more" => {
-                                    let v = self.inner.next_value()?;
-                                    self.more.set(Some(v));
-                                    continue;
-                                }
-                                "upgrade" => {
-                                    let v = self.inner.next_value()?;
-                                    self.upgrade.set(Some(v));
-                                    continue;
-                                }
-                                other => {
-                                    let de = other.into_deserializer();
-                                    return seed.deserialize(de).map(Some);
+                                    match flag {
+                                        Flag::Oneway => self.oneway.set(Some(v)),
+                                        Flag::More => self.more.set(Some(v)),
+                                        Flag::Upgrade => self.upgrade.set(Some(v)),
+                                    }
+                                    seed = unused_seed;
                                 }
                             }
                         }
-                        Ok(None)
                     }
 
                     fn next_value_seed<V>(&mut self, seed: V) -> Result<V::Value, MAcc::Error>
